@@ -22,6 +22,10 @@ CallVerdict(e, call) ==
   ELSE IF call.py.next_change # call.rs.next_change THEN "next_change"
   ELSE IF call.py.intervals # call.rs.intervals \/ call.py.intervals_bounded # call.rs.intervals_bounded THEN "intervals"
   ELSE IF Zones(call) \ {ResultZone(Args(e), e.ctx_zone, call.dt.tz)} # {} THEN "zone"
+  \* Session.tla seen from Python: the object normalize() returned answers like the core's normal form under the SAME context;
+  \* an iterator consumed between other calls yields the elements of the stream, in order
+  ELSE IF call.py.norm # call.rs.norm THEN "normalized_object"
+  ELSE IF call.py.interleaved # call.rs.interleaved THEN "interleaved_iterator"
   ELSE "ok"
 
 Verdict(e) ==
